@@ -207,7 +207,9 @@ def rules_macro(run):
         if not outer:
             continue
         tv = outer[0].target.id if isinstance(outer[0].target, ast.Name) else None
-        attrs = sorted({n.attr for n in ast.walk(M) if isinstance(n, ast.Attribute) and isinstance(n.value, ast.Name) and n.value.id == tv})
+        attrs = sorted({n.attr for n in ast.walk(M) if isinstance(n, ast.Attribute) and isinstance(n.value, ast.Name) and n.value.id == tv} |
+                       {q.const_str(n.args[1]) for n in ast.walk(M) if isinstance(n, ast.Call) and isinstance(n.func, ast.Name) and n.func.id == 'getattr' and len(n.args) == 2
+                        and isinstance(n.args[0], ast.Name) and n.args[0].id == tv and q.const_str(n.args[1])})
         want = {'transitions': ['transition'], 'event': ['event']}.get(prop, [prop])
         run.check(attrs == want, r, m.short, 'reads micro-step attribute %s' % want, 'reads %s of the micro steps instead of %s' % (attrs, want), M)
         calls_bad = [c for c in q.calls(M) if isinstance(c.func, ast.Name) and c.func.id in ('sorted', 'reversed', 'set')]
@@ -269,3 +271,5 @@ def check(run):
     from . import c07
     c07.rules_order(run, 'C03', '.5')
     rules_macro(run)
+    from .c16 import rules_caches
+    rules_caches(run, 'C03', '.8')
